@@ -510,3 +510,120 @@ Example C15_example_fmns :
   /\ fm_write (mkFsolver 7 "XOR"%string 1 1 1 4 [17; 17; 16; 14] [0; 0; infinity; 0]%float [] []) = GoErr ErrFmnsFloat
   /\ fm_write (mkFsolver 7 "XOR"%string 1 1 1 4 [17; 17; 0; 14] [0; 0; infinity; 0]%float [] []) = GoErr ErrFmnsActType.
 Proof. vm_compute. repeat split; reflexivity. Qed.
+(* ============================================================================================ *)
+(* agent-modules: the model file of fast solvers WITH modules                                     *)
+(* ============================================================================================ *)
+(* model/FastMod.v gives the modules of a fast solver their meaning in the solver steps (forwardStep's module loop,
+   RecursiveSteps' refusal), model/FmnsMod.v places such a solver inside the Go object of model/Fmns.v
+   ([msolver_of id name 0 fx]: what Network.FastNetworkSolver returns for a network with control nodes;
+   [fmnet_of s]: the solver inside the object s); proofs/ModSpecFmns.v.  This lifts the restriction "solvers without
+   modules" of the output theorems above.  [mact] is NodeActivators.ActivateModuleByType, any table.
+   Correspondence of the module semantics: cases/ModCases.v (harness/c13_mod.go, run by ./check C13), which also
+   writes, reads back and re-runs the model file of every modular solver it builds. *)
+From NeatModel Require Import NetMod FastMod FmnsMod ModSpecFast ModSpecFmns ModCases.
+
+(* every well-formed fast solver with modules, registered activation types (neurons and modules), finite numbers:
+   WriteModel succeeds and ReadFMNSModel returns the same object, modules included *)
+Theorem C15_mod_fmns_roundtrip_wf :
+  forall (F : Type) (NF : num F) (finite : F -> bool), finite (fzero NF) = true ->
+  forall (fx : fmnet F) (id : Z) (name : string),
+    ((f_bias (fx_net fx) + f_in (fx_net fx) + f_out (fx_net fx) <=? f_total (fx_net fx))
+     && (List.length (f_acts (fx_net fx)) =? f_total (fx_net fx))
+     && (List.length (f_biases (fx_net fx)) =? f_total (fx_net fx))
+     && forallb (fun c => (fl_src c <? f_total (fx_net fx)) && (fl_tgt c <? f_total (fx_net fx))) (f_conns (fx_net fx)))%nat = true ->
+    Forall (fun c => exists nm, C15_name_of c = Ok nm) (f_acts (fx_net fx)) ->
+    Forall (fun m => exists nm, C15_name_of (fmd_act m) = Ok nm) (fx_mods fx) ->
+    forallb finite (f_biases (fx_net fx)) = true -> forallb finite (map (@fl_w F) (f_conns (fx_net fx))) = true ->
+    exists d, fmns_write finite C15_name_of (msolver_of id name (fzero NF) fx) = Ok d /\
+      exists s', fmns_read C15_type_of d = Ok s' /\ s' = msolver_of id name (fzero NF) fx /\ fmnet_of s' = fx /\
+                 s_id s' = id /\ s_name s' = name /\ msolver_fits s' = true.
+Proof.
+  intros F NF finite Hz fx id name.
+  exact (mfmns_roundtrip_fmnet F finite C15_name_of C15_type_of NF type_of_name_of Hz fx id name).
+Qed.
+Print Assumptions C15_mod_fmns_roundtrip_wf.
+
+(* "restores a solver that computes identical outputs", modules included: for every solver Network.FastNetworkSolver
+   builds from a network with control nodes and EVERY sequence of operations, the restored solver returns at every
+   operation the same result (errors of the module loop included) and the same ReadOutputs() as the original
+   (a) run from its own initial state and (b) flushed after any history of its own - (b) for the solvers for which
+   Flush is a reset (C13_mod_fast_flush_fresh: no module reads a bias slot that something writes) *)
+Theorem C15_mod_fmns_outputs_equal :
+  forall (F : Type) (NF : num F) (finite : F -> bool) (act : Z -> F -> res F) (mact : Z -> list F -> res (list F)),
+    finite (fzero NF) = true ->
+  forall (n : mnet F) (fx : fmnet F) (id : Z) (name : string),
+    fast_of_net_mod NF n = Ok fx ->
+    Forall (fun c => exists nm, C15_name_of c = Ok nm) (f_acts (fx_net fx)) ->
+    Forall (fun m => exists nm, C15_name_of (fmd_act m) = Ok nm) (fx_mods fx) ->
+    forallb finite (f_biases (fx_net fx)) = true -> forallb finite (map (@fl_w F) (f_conns (fx_net fx))) = true ->
+    exists d s', fmns_write finite C15_name_of (msolver_of id name (fzero NF) fx) = Ok d /\
+      fmns_read C15_type_of d = Ok s' /\
+      s_modules s' = map smodule_of (fx_mods fx) /\
+      (forall ops : list (op F),
+         mfast_trace NF act mact (fmnet_of s') (mfast_init NF (fmnet_of s')) ops =
+         mfast_trace NF act mact fx (mfast_init NF fx) ops) /\
+      (flush_ok F fx = true ->
+       forall h ops : list (op F),
+         mfast_trace NF act mact (fmnet_of s') (mfast_init NF (fmnet_of s')) ops =
+         mfast_trace NF act mact fx (fst (fast_flush NF (fx_net fx) (mfast_run NF act mact fx (mfast_init NF fx) h))) ops).
+Proof.
+  intros F NF finite act mact Hz n fx id name.
+  exact (mfmns_outputs_equal F finite C15_name_of C15_type_of NF type_of_name_of Hz act mact n fx id name).
+Qed.
+Print Assumptions C15_mod_fmns_outputs_equal.
+
+(* the binary64 instance the correspondence runs *)
+Theorem C15_mod_fmns_outputs_equal_float :
+  forall (t : table) (n : mnet float) (fx : fmnet float) (id : Z) (name : string),
+    fast_of_net_mod F64num n = Ok fx ->
+    Forall (fun c => exists nm, C15_name_of c = Ok nm) (f_acts (fx_net fx)) ->
+    Forall (fun m => exists nm, C15_name_of (fmd_act m) = Ok nm) (fx_mods fx) ->
+    forallb f_finite (f_biases (fx_net fx)) = true -> forallb f_finite (map (@fl_w float) (f_conns (fx_net fx))) = true ->
+    exists d s', fm_write (msolver_of id name 0%float fx) = Ok d /\ fm_read d = Ok s' /\
+      forall ops : list (op float),
+        mfast_trace F64num (fact t) fmact (fmnet_of s') (mfast_init F64num (fmnet_of s')) ops =
+        mfast_trace F64num (fact t) fmact fx (mfast_init F64num fx) ops.
+Proof.
+  intros t n fx id name H Ha Hm Hb Hw.
+  destruct (mfmns_outputs_equal float f_finite C15_name_of C15_type_of F64num type_of_name_of eq_refl (fact t) fmact n fx id name H Ha Hm Hb Hw)
+    as (d & s' & Hd & Hr & _ & Ho & _).
+  exists d, s'. exact (conj Hd (conj Hr Ho)).
+Qed.
+Print Assumptions C15_mod_fmns_outputs_equal_float.
+
+(* non-vacuity: the network of C13's modular example (a MULTIPLY module feeding a MAX module) as a fast solver, its
+   model file with the "modules" array, the restored solver and its outputs *)
+Definition ex_fm_mnet : mnet float :=
+  mkMnet (mkNet [mkNode Input 17 []; mkNode Input 17 []; mkNode Bias 17 [];
+                 mkNode Hidden 14 [mkLink 0%nat 2%float false; mkLink 2%nat 0.5%float false];
+                 mkNode Hidden 14 [mkLink 1%nat 1%float false; mkLink 2%nat 1%float false];
+                 mkNode Hidden 17 []; mkNode Hidden 17 [];
+                 mkNode Output 14 [mkLink 5%nat 1.5%float false; mkLink 6%nat 1%float false]]
+                [0%nat; 1%nat; 2%nat] [7%nat])
+         [mkCnode 21 [3%nat; 4%nat] [5%nat]; mkCnode 22 [5%nat; 3%nat] [6%nat]].
+
+Example C15_mod_example_fmns :
+  match fast_of_net_mod F64num ex_fm_mnet with
+  | Ok fx =>
+    match fm_write (msolver_of 9 "MOD"%string 0%float fx) with
+    | Ok d =>
+      option_eqb (list_eqb dmodule_eqb) (d_modules d)
+        (Some [mkDmodule "MultiplyModuleActivation"%string [4; 5] [6]; mkDmodule "MaxModuleActivation"%string [6; 4] [7]])
+      && match fm_read d with
+         | Ok s' => solver_eqb s' (msolver_of 9 "MOD"%string 0%float fx) && msolver_fits s'
+                    && list_eqb (list_eqb feqb_exact)
+                         (map snd (mfast_trace F64num (fact []) fmact (fmnet_of s') (mfast_init F64num (fmnet_of s'))
+                                     [OLoad [2%float; 3%float]; OForward 3; ORecursive]))
+                         [[0]; [45]; [45]]%float
+                    && list_eqb Z.eqb
+                         (map (fun ro => code_of_res (fst ro))
+                              (mfast_trace F64num (fact []) fmact (fmnet_of s') (mfast_init F64num (fmnet_of s'))
+                                 [OLoad [2%float; 3%float]; OForward 3; ORecursive]))
+                         [1; 1; 114]
+         | _ => false
+         end
+    | _ => false
+    end
+  | _ => false
+  end = true.
+Proof. vm_compute. reflexivity. Qed.
